@@ -177,7 +177,7 @@ Ltac psimp := rewrite ?persisted_set_sat, ?persisted_set_word, ?persisted_touch,
 
 Ltac ms Hpc :=
   unfold rd, lk, carry, undep, needs_ptr, crashed, pendI, pendR, look, xr, gp, tl_ok, cnt_ok, S_ok in *;
-  cbn [t_pc t_amt t_st t_kind t_old t_prev t_tgt t_after with_pc with_st with_st2 with_old with_amt to_close after_release goto_nops] in *;
+  cbn [t_pc t_amt t_st t_kind t_old t_prev t_prev2 t_tgt t_after with_pc with_st with_st2 with_old with_amt to_close after_release goto_nops] in *;
   try rewrite Hpc in *; cbn iota beta in *.
 
 (* a step that leaves the shared state alone *)
@@ -396,9 +396,8 @@ Proof.
       split; [apply wf_set_ptr_cur; exact W|].
       split; [npg|]. split; [reflexivity|]. split; [sok Hpc|]. split; [lia|]. intros Hs. split; [exact Hs|lia]. }
     destruct (s_cur s) as [g0|] eqn:Ec; [|apply Plain; rewrite <- H; reflexivity].
-    destruct (t_prev t) eqn:Epv; [apply Plain; rewrite <- H; reflexivity|].
+    destruct (t_prev2 t) eqn:Epv; [apply Plain; rewrite <- H; reflexivity|].
     destruct (s_full s) eqn:Efu; [|apply Plain; rewrite <- H; reflexivity].
-    destruct (t_kind t) eqn:Ekd; cbn [andb] in H; [|apply Plain; rewrite <- H; reflexivity].
     (* the lookup extends the file *)
     injection H as <- <-. pose proof W as (Wp & Wc & Wm & Wl & Wn).
     exists LOCKED, h, e. split; [exact F|]. ms Hpc.
@@ -438,7 +437,7 @@ Proof.
     assert (Hh : h = false).
     { destruct SO as (_ & _ & _ & _ & S5). apply S5. ms Hpc. lia. }
     clear Eh. subst h. pose proof W as (Wp & Wc & Wm & Wl & Wn).
-    destruct (t_prev t) as [g|]; injection H as <- <-.
+    destruct (t_prev2 t) as [g|]; injection H as <- <-.
     + exists LOCKED, false, e. split; [exact F|]. ms Hpc.
       split; [lia|]. split; [split; [assumption|intros; discriminate]|].
       split; [split; [exact Wn|]; split; [exact Wc|]; split; [exact Wm|]; split; [exact Wl|exact Wn]|].
@@ -481,7 +480,7 @@ Proof.
   - (* CIdle *) injection H as <- <-. destruct (t_tgt t); same_leaf Hpc F W T N r h.
   - (* CPre *) injection H as <- <-. same_leaf Hpc F W T N r h.
   - (* CStore *)
-    assert (Hgo : forall k, let t0 := mkT Done Changer (t_st t) (t_amt t) (t_old t) (s_cur s) (t_tgt t) Done in
+    assert (Hgo : forall k, let t0 := mkT Done Changer (t_st t) (t_amt t) (t_old t) (s_cur s) (t_prev2 t) (t_tgt t) Done in
               rd (goto_nops t0 k IvLoad) = 0 /\ lk (goto_nops t0 k IvLoad) = 0 /\ carry (goto_nops t0 k IvLoad) = 0 /\
               undep (goto_nops t0 k IvLoad) = 0 /\ needs_ptr (goto_nops t0 k IvLoad) = 0 /\
               crashed (goto_nops t0 k IvLoad) = false /\ tl_ok (goto_nops t0 k IvLoad) /\
@@ -533,6 +532,22 @@ Proof.
       { split; [|split; [|split; [|split]]]; cbn [s_ptr s_cur s_maps s_cells s_new]; try assumption. intros g Hg. discriminate. }
       split; [exact N|]. split; [exact G6|]. split; [sok Hpc|].
       unfold persisted. cbn [s_cells s_sat].
+      split; [lia|]. intros Hs. split; [exact Hs|lia].
+    + (* FullFile *)
+      injection H as <- <-.
+      destruct (Hgo (n_after_store_rotate np)) as (G1 & G2 & G3 & G4 & G5 & G6 & G7 & G8 & G9 & G10 & G11 & G12).
+      exists r, h, e. split; [exact F|]. rewrite G1, G2, G3, G4, G5, G8, G9, G10, G11, G12, M3, M4.
+      split; [exact C|]. split; [exact G7|]. split.
+      { split; [|split; [|split; [|split]]]; cbn [s_ptr s_cur s_maps s_cells s_new].
+        - intros g Hg. rewrite app_length. specialize (Wp g Hg). cbn. lia.
+        - intros g Hg. injection Hg as <-. rewrite app_length. cbn. lia.
+        - apply Forall_app. split.
+          + eapply Forall_impl; [|exact Wm]. intros a Ha. cbn beta in *. rewrite app_length. cbn [length]. lia.
+          + constructor; [rewrite app_length; cbn; lia | constructor].
+        - apply Forall_app. split; [exact Wl|]. constructor; [rewrite W64_v; lia | constructor].
+        - intros g Hg. rewrite app_length. specialize (Wn g Hg). cbn. lia. }
+      split; [exact N|]. split; [exact G6|]. split; [sok Hpc|].
+      unfold persisted. cbn [s_cells s_sat]. rewrite persisted_app.
       split; [lia|]. intros Hs. split; [exact Hs|lia].
   - (* CNop *) injection H as <- <-. destruct k; same_leaf Hpc F W T N r h.
   - (* IvLoad *)
